@@ -289,8 +289,8 @@ CHECKS = {
              "error kinds (29 message families); the specification predicates must confirm the rewritten model breaks a rule. The "
              "validator lists of _validate / _validate_extensions and the order of the steps of bake() are extracted from the "
              "CURRENT source on every run and proved equal to the ones the model transcribes (Proofs/Wiring.v). "
-             "PARTIAL: `extend schema` operation clauses (an operation named twice / whose type is defined) are decided per "
-             "model, not proved.",
+             "`extend schema` naming an operation whose root type is already defined is refused "
+             "(C12_schema_operation_redefinition_refused).",
         note="Trusted: Coq kernel, generators, SDL printer; the lark grammar (syntax verdicts) and inspect (awaitability) are "
              "oracles.",
         design="4 C12"),
